@@ -237,7 +237,7 @@ class C14(HttpProp):
 # ------------------------------------------------------------------ request grid (C15, C20)
 def grid_requests(rng, tier, client=1):
     """grammar-generated requests: route x method x client-id form x path-id form x content-type x body class"""
-    routes = ["index", "av", "gcv", "as", "snap", "unknown1", "unknown2", "unknown3", "unknown4"]
+    routes = ["index", "av", "gcv", "as", "snap", "unknown1", "unknown2", "unknown3", "unknown4", "avq", "gcvq", "asq", "snapq"]
     methods = ["GET", "POST", "PUT", "DELETE", "HEAD", "PATCH", "GET/1.0", "POST/1.0", "OPTIONS"]
     cids = ["absent"] + [f"{f}={client}" for f in BAD_CID_FORMS] + [f"{f}={client}" for f in ("hyph", "upper", "simple", "braced", "urn")] + ["hyph=fresh"]
     segs = [f"{f}=latest:{client}" for f in BAD_ID_FORMS] + [f"{f}=latest:{client}" for f in ("hyph", "upper", "simple", "braced", "urn")] + ["hyph=nil", "hyph=fresh"]
@@ -249,7 +249,7 @@ def grid_requests(rng, tier, client=1):
     for route in routes:
         for m in methods:
             for cid in cids:
-                for seg in (segs if route in ("av", "gcv", "as", "unknown2") else ["-"]):
+                for seg in (segs if route in ("av", "gcv", "as", "unknown2", "avq", "gcvq", "asq") else ["-"]):
                     for ct in cts:
                         for body in bodies:
                             reqs.append(f"http {m} {route} {seg} {cid} {ct} {body}")
@@ -259,8 +259,8 @@ def grid_requests(rng, tier, client=1):
         keep = reqs[:1500]
         for route in routes:
             for m in methods:
-                seg = f"hyph=latest:{client}" if route in ("av", "gcv", "as", "unknown2") else "-"
-                ct = "history" if route == "av" else ("snapshot" if route == "as" else "absent")
+                seg = f"hyph=latest:{client}" if route in ("av", "gcv", "as", "unknown2", "avq", "gcvq", "asq") else "-"
+                ct = "history" if route in ("av", "avq") else ("snapshot" if route in ("as", "asq") else "absent")
                 keep.append(f"http {m} {route} {seg} hyph={client} {ct} b:5")
         for cid in cids:
             for route, m, ct in (("av", "POST", "history"), ("gcv", "GET", "absent"), ("as", "POST", "snapshot"), ("snap", "GET", "absent")):
@@ -633,7 +633,10 @@ class C06(HttpProp):
         out += interleaved_upload_cases("c06", rng, sizes(tier, 12, 100))
         # byte classes x sizes, one-byte chunkings
         classes = {"zeros": "0", "ff": "255", "digits": "49,50,51,52,53", "utf8": "195,169,226,130,172", "badutf8": "195,40,255,254",
-                   "nul": "65,0,66,0,0", "quote": "39,34,92,0"}
+                   "nul": "65,0,66,0,0", "quote": "39,34,92,0",
+                   # bytes a text-minded layer might trim, fold or re-encode: leading / trailing blanks and
+                   # line ends, CR LF pairs, a byte-order mark, a lone high byte at the very end
+                   "ws": "32,9,65,66,32,10", "crlf": "13,10,13,10,65,13,10", "bom": "239,187,191,123,125", "tailhigh": "65,66,67,195"}
         for name, pat in classes.items():
             ops = []
             for n in (1, 5, 64, 200):
